@@ -12,6 +12,7 @@ from ..guards import analysis, closure_info, closure_ret, subst_upvars, as_cmp
 from ..sym import Sym
 from ..terms import strip, short, cname, unmut, show
 from .common import int_conversion_ranges, ranges_of
+from .. import bitsem
 
 LEVEL = "other"
 M = "alpha_g_detector::chronobox::"
@@ -169,6 +170,17 @@ class Builder:
             self.fn_cache[path] = self.body_grammar(path, None, depth)
         return self.fn_cache[path]
 
+    TEMP = (("field", ("param", 1), 0), ("field", ("deref", ("param", 1)), 0))
+
+    def sem(self, t, width=24):
+        """semantic signature of a bit-level expression over the previously parsed 24-bit word, or None"""
+        def is_var(x):
+            x0 = x
+            while x0[0] in ("ref", "deref") and x0 not in self.TEMP:
+                x0 = x0[1]
+            return x0 in self.TEMP
+        return bitsem.signature(t, is_var, width)
+
     def value_name(self, an, sy, t):
         t0 = strip(t)
         if t0[0] == "var":
@@ -178,6 +190,10 @@ class Builder:
                 val = an.terms.rvalue(x) if si != "t" else an.terms.call_term(x, bi)
                 guards = []
                 for (d, tr) in an.bool_atoms_at(bi):
+                    sg = self.sem(d if tr else ("un", "Not", d))
+                    if sg is not None:
+                        guards.append(sg)
+                        continue
                     c = as_cmp(d, tr)
                     if c:
                         guards.append("%s %s %s" % (self.expr(an, sy, c[1]), c[0], self.expr(an, sy, c[2])))
@@ -189,6 +205,9 @@ class Builder:
         t = strip(t)
         if t[0] == "aggr" and t[1].startswith("adt:") and not t[2]:
             return t[1].split("::")[-1]
+        sg = self.sem(t)
+        if sg is not None and not (t[0] == "const"):
+            return "temp:" + sg
         c = as_cmp(t, True)
         if c:
             return "%s %s %s" % (self.expr(an, sy, c[1]), c[0], self.expr(an, sy, c[2]))
@@ -210,6 +229,23 @@ class Builder:
         if len(rets) != 1:
             return "?%d" % len(rets)
         r = strip(rets[0])
+        # one-argument closures over a small integer: semantic signature
+        if cb.argc == 2:
+            aty = cb.locals[2]["ty"]
+            while aty.get("k") == "ref":
+                aty = aty["t"]
+            if aty.get("k") == "int" and aty["w"] <= 16:
+                def is_arg(x):
+                    while x[0] in ("ref", "deref"):
+                        x = x[1]
+                    return x == ("param", 2)
+                sg = bitsem.signature(r, is_arg, aty["w"])
+                if sg is not None:
+                    return "x:" + sg
+                if r[0] == "call" and len(r[2]) == 1 and r[1] in self.prog.bodies:
+                    sg = bitsem.signature(r[2][0], is_arg, aty["w"])
+                    if sg is not None:
+                        return "%s(x:%s)" % (r[1], sg)
         c = as_cmp(r, True)
 
         def e(x):
